@@ -381,3 +381,8 @@ MUTATIONS += [
       find="        let type_info = TypeInfoBlueprint::get_type(node_id, self.api)?;\n\n        if flags.contains(LockFlags::UNMODIFIED_BASE) || flags.contains(LockFlags::FORCE_WRITE) {",
       replace="        let type_info = TypeInfoBlueprint::get_type(node_id, self.api)?;\n\n        if flags.intersects(LockFlags::UNMODIFIED_BASE | LockFlags::FORCE_WRITE) {"),
 ]
+MUTATIONS += [
+ dict(name="benign-c43-ruid-ids-skip-the-tombstone", props=["C43"], benign=True, file="radix-engine/src/blueprints/resource/non_fungible/non_fungible_resource_manager.rs",
+      find="                api.key_value_entry_remove(handle)?;\n                // Tombstone the non fungible\n                // TODO: RUID non fungibles with no data don't need to go through this process\n                api.key_value_entry_lock(handle)?;\n                api.key_value_entry_close(handle)?;",
+      replace="                api.key_value_entry_remove(handle)?;\n                // Tombstone the non fungible (generated RUID ids can never be minted again, so they need none)\n                match &id {\n                    NonFungibleLocalId::RUID(..) => {}\n                    _ => {\n                        api.key_value_entry_lock(handle)?;\n                    }\n                }\n                api.key_value_entry_close(handle)?;"),
+]
